@@ -42,12 +42,18 @@ namespace nmtools::utl
         constexpr reference at(index_type i)
         {
             // TODO: assert/throw
+            #ifdef NMTOOLS_VERIF
+            NMTOOLS_VERIF_CHECK( ((nm_size_t)i >= (nm_size_t)N), 1, i, N );
+            #endif // NMTOOLS_VERIF
             return buffer[i];
         }
 
         constexpr const_reference at(index_type i) const
         {
             // TODO: assert/throw
+            #ifdef NMTOOLS_VERIF
+            NMTOOLS_VERIF_CHECK( ((nm_size_t)i >= (nm_size_t)N), 1, i, N );
+            #endif // NMTOOLS_VERIF
             return buffer[i];
         }
 
@@ -70,11 +76,17 @@ namespace nmtools::utl
 
         constexpr reference operator[](index_type i) noexcept
         {
+            #ifdef NMTOOLS_VERIF
+            NMTOOLS_VERIF_CHECK( ((nm_size_t)i >= (nm_size_t)N), 1, i, N );
+            #endif // NMTOOLS_VERIF
             return buffer[i];
         }
 
         constexpr const_reference operator[](index_type i) const noexcept
         {
+            #ifdef NMTOOLS_VERIF
+            NMTOOLS_VERIF_CHECK( ((nm_size_t)i >= (nm_size_t)N), 1, i, N );
+            #endif // NMTOOLS_VERIF
             return buffer[i];
         }
 
